@@ -193,6 +193,7 @@ func c13Units(tier string, seed int64) []Unit {
 			}
 		}
 	}})
+	units = append(units, fuzzWrapUnit())
 	return units
 }
 
